@@ -230,7 +230,7 @@ def replay_source(src):
 BODY_TOKENS = {
     'a1': "v1 = aa + 1", 'a2': "v2 = mathMax(v1, bb)", 'a3': "v1 = mathMax(v1, v2)", 'a4': "v3 = extra * 2", 'a5': "v2 = mathMax(v2, v3)",
     'e1': "tt(v1)", 'e2': "v1", 'e3': "1 + bb", 'e4': "tt(bb) == 1", 'e5': "!(tt(aa) < 2) && bb", 'a6': "aa = 0", 'j2': "jumpif (bb) ly", 'l2': "ly:",
-    'r3': "return aa", 'l1': "lx:", 'j1': "jumpif (aa) lx", 'r1': "return v2", 'r2': "return arrayNew(v1, v3)",
+    'r3': "return aa", 'i1': "if bb:\n    aa = 0\nendif", 'i2': "if aa:\n    v1 = 9\nendif", 'l1': "lx:", 'j1': "jumpif (aa) lx", 'r1': "return v2", 'r2': "return arrayNew(v1, v3)",
 }
 JUST_UNUSED_VAR = re.compile(r'^Unused variable "(.*)" defined in function "(.*)" \(index (\d+)\)$')
 JUST_UNUSED_ARG = re.compile(r'^Unused argument "(.*)" of function "(.*)" \(index (\d+)\)$')
@@ -253,7 +253,7 @@ def _run(model, aa, bb):
 
 def check_justified(tokens):
     from bare_script import parse_script, lint_script
-    src = 'function ff(aa, bb, cc):\n' + ''.join('    ' + BODY_TOKENS[t] + '\n' for t in tokens) + 'endfunction\nres = ff(in_a, in_b)\ntt(res)\n'
+    src = 'function ff(aa, bb, cc):\n' + ''.join('    ' + BODY_TOKENS[t].replace('\n', '\n    ') + '\n' for t in tokens) + 'endfunction\nres = ff(in_a, in_b)\ntt(res)\n'
     model = parse_script(src)
     warnings = lint_script(model)
     fn = model['statements'][0]['function']
